@@ -2,6 +2,8 @@
 From VLib Require Import CaseLib.
 From C03 Require Import Model ModelBytes.
 From Coq Require Import ZArith.
+From VLib Require GoSem.
+From C03 Require GenCase.
 
 Definition lN_eqb := list_eqb N.eqb.
 Definition llN_eqb := list_eqb lN_eqb.
@@ -122,7 +124,12 @@ Inductive case :=
    seen = (Len, Ext1, Ext2) of headers 0..n-1, beyond = GetBlockHeader(n) *)
 | CReg (hs : list hdrb) (reg : list N) (seen : list hdr) (beyond : dres (list N))
 (* one request sent to the three forms of one fraction + brute-force oracle; canonical answers *)
-| CForm (kind : N) (active sealed reloaded oracle : list N).
+| CForm (kind : N) (active sealed reloaded oracle : list N)
+(* gen-<func> (validation of the translator go2coq): the REAL Go function number fn (GenCase.gen_eval) was called
+   on args and returned impl (or panicked); the GENERATED definition of Gen.v is evaluated on the same arguments *)
+| CGo (fn : N) (args : list (list Z)) (impl : GoSem.gres).
+Notation GVal := GoSem.GVal (only parsing).
+Notation GPanic := GoSem.GPanic (only parsing).
 
 (* ---------------------------------------------------------------- model = implementation *)
 Definition run_query (t : table) (cs : list chunks) (q : query) : res (list N) :=
@@ -196,6 +203,7 @@ Definition case_agrees (c : case) : bool :=
       lN_eqb (pack_registry hs) reg && list_eqb hdr_eqb (read_registry reg) seen
       && dres_eqb lN_eqb (get_header reg (length hs)) beyond
   | CForm _ _ _ _ _ => true
+  | CGo fn args impl => GoSem.gres_eqb (GenCase.gen_eval fn args) impl
   end.
 
 (* ---------------------------------------------------------------- the property on the implementation's output *)
@@ -305,6 +313,7 @@ Definition case_spec_ok (c : case) : bool :=
   | CHdr h _ got => hdrb_eqb got h
   | CReg hs _ seen beyond => list_eqb hdr_eqb seen (map hdr3c hs) && dres_eqb lN_eqb beyond DErr
   | CForm _ a s r o => all_eq4 a s r o
+  | CGo _ _ _ => true   (* translator validation: correspondence only *)
   end.
 
 Definition diff_indices (l : list case) : list nat := bad_indices (fun c => negb (case_agrees c)) l.
